@@ -357,8 +357,14 @@ func runCanaries(v *Verifier, prop string, res *propResult) []map[string]interfa
 	}
 	seen := map[string]bool{}
 	var out []map[string]interface{}
+	open := map[string]bool{} // replays of findings that are recorded, not repaired: expected to fail
+	for _, kf := range loadKnownFindings() {
+		if kf.Replay != "" {
+			open[filepath.Base(strings.Fields(kf.Replay)[0])] = true
+		}
+	}
 	for _, en := range idx {
-		if !strings.HasPrefix(en.File, prop+"_") || seen[en.File+en.Run] {
+		if !strings.HasPrefix(en.File, prop+"_") || seen[en.File+en.Run] || open[en.File] {
 			continue
 		}
 		seen[en.File+en.Run] = true
